@@ -155,6 +155,7 @@ class Contract:
         s = self.bind(interp, args, kwargs)
         s.ctx = ctx
         s.interp = interp
+        s.mode = "apply"
         s.old = self.snapshot(s) if self.snapshot else None
         for lab, t in self.labelled(self.requires(s)):
             ctx.prove(f"call {self.frame_name}: pre:{lab}", t, kind="call-pre")
@@ -190,6 +191,7 @@ class Contract:
             s = self.setup(ctx)
             s.ctx = ctx
             s.interp = interp
+            s.mode = "verify"
             for lab, t in self.labelled(self.requires(s)):
                 ctx.assume(t)
             s.old = self.snapshot(s) if self.snapshot else None
